@@ -1579,3 +1579,86 @@ Proof.
         destruct He as (s' & v' & A & B & -> & ->). exists s', v'. auto.
       * destruct (Hn j ltac:(simpl in *; lia)) as [_ B]. exact B.
 Qed.
+
+Definition ret_ok (nu : nat) (body : list (sbody snode)) (a : arg) : Prop :=
+  match a with
+  | AParam i => i < nu
+  | AOut j l => j < List.length body /\ l < s_nouts (kid body j)
+  | AConst _ => False
+  end.
+
+Definition same_skel (b b' : list (sbody snode)) : Prop :=
+  List.length b' = List.length b /\
+  forall j, sb_node (nth j b' dsb) = sb_node (nth j b dsb) /\ sb_conns (nth j b' dsb) = sb_conns (nth j b dsb) /\
+            List.length (sb_orecv (nth j b' dsb)) = List.length (sb_orecv (nth j b dsb)).
+
+Lemma same_skel_refl b : same_skel b b.
+Proof. split; auto. Qed.
+
+Lemma same_skel_trans a b c : same_skel a b -> same_skel b c -> same_skel a c.
+Proof.
+  intros [L1 H1] [L2 H2]. split; [congruence|]. intros j.
+  destruct (H1 j) as (A1 & B1 & C1), (H2 j) as (A2 & B2 & C2). repeat split; congruence.
+Qed.
+
+Lemma same_skel_kid b b' j : same_skel b b' -> kid b' j = kid b j.
+Proof. intros [_ H]. unfold kid. apply H. Qed.
+
+Lemma link_rets_spec rets : forall st o st',
+  link_rets st o rets = Some st' ->
+  b_recvs st' = b_recvs st /\ b_kept st' = b_kept st /\ b_vbody st' = b_vbody st /\
+  List.length (b_uirecv st') = List.length (b_uirecv st) /\ same_skel (b_body st) (b_body st') /\
+  (forall i, i < List.length (b_uirecv st) ->
+     nth i (b_uirecv st') None = match last_idx (AParam i) rets o with Some x => Some x | None => nth i (b_uirecv st) None end) /\
+  (forall j l, j < List.length (b_body st) -> l < List.length (sb_orecv (nth j (b_body st) dsb)) ->
+     nth l (sb_orecv (nth j (b_body st') dsb)) None =
+     match last_idx (AOut j l) rets o with Some x => Some x | None => nth l (sb_orecv (nth j (b_body st) dsb)) None end) /\
+  (forall la, In la rets -> ret_ok (List.length (b_uirecv st)) (b_body st) (snd la)).
+Proof.
+  induction rets as [|[lab a] r IH]; intros st o st' H; simpl in H.
+  - inversion H; subst. repeat split; auto using same_skel_refl. intros la [].
+  - destruct (link_ret st o a) as [st1|] eqn:E1; [|discriminate].
+    destruct (IH _ _ _ H) as (R & K & V & LU & SK & HU & HB & HR). clear IH.
+    assert (H1 : b_recvs st1 = b_recvs st /\ b_kept st1 = b_kept st /\ b_vbody st1 = b_vbody st /\
+                 List.length (b_uirecv st1) = List.length (b_uirecv st) /\ same_skel (b_body st) (b_body st1) /\
+                 ret_ok (List.length (b_uirecv st)) (b_body st) a /\
+                 (forall i, i < List.length (b_uirecv st) ->
+                    nth i (b_uirecv st1) None = if arg_eqb (AParam i) a then Some o else nth i (b_uirecv st) None) /\
+                 (forall j l, j < List.length (b_body st) -> l < List.length (sb_orecv (nth j (b_body st) dsb)) ->
+                    nth l (sb_orecv (nth j (b_body st1) dsb)) None =
+                    if arg_eqb (AOut j l) a then Some o else nth l (sb_orecv (nth j (b_body st) dsb)) None)).
+    { unfold link_ret in E1. destruct a as [i|j l|z]; [| |discriminate].
+      - destruct (Nat.ltb_spec i (List.length (b_uirecv st))) as [Hi|Hi]; [|discriminate].
+        inversion E1; subst st1; simpl. repeat split; auto using same_skel_refl, upd_nth_length.
+        intros i' Hi'. rewrite nth_upd. destruct (Nat.eqb_spec i i') as [->|Hne].
+        + rewrite Nat.eqb_refl. now replace (Nat.ltb i' (List.length (b_uirecv st))) with true by (symmetry; now apply Nat.ltb_lt).
+        + replace (Nat.eqb i' i) with false by (symmetry; apply Nat.eqb_neq; auto). reflexivity.
+      - destruct (arg_ok 0 (b_body st) (AOut j l)) eqn:Eok; [|discriminate].
+        simpl in Eok. apply andb_true_iff in Eok as [Hj Hl]. apply Nat.ltb_lt in Hj, Hl.
+        inversion E1; subst st1; simpl. split; auto. split; auto. split; auto. split; auto. split; [|split; [|split]].
+        + split; [apply upd_nth_length|]. intros j'. rewrite nth_upd.
+          destruct (Nat.eqb_spec j j') as [->|Hne]; auto.
+          replace (Nat.ltb j' (List.length (b_body st))) with true by (symmetry; now apply Nat.ltb_lt).
+          simpl. repeat split; auto. apply upd_nth_length.
+        + split; auto.
+        + auto.
+        + intros j' l' Hj' Hl'. rewrite nth_upd. destruct (Nat.eqb_spec j j') as [->|Hne].
+          * replace (Nat.ltb j' (List.length (b_body st))) with true by (symmetry; now apply Nat.ltb_lt).
+            simpl. rewrite nth_upd. rewrite Nat.eqb_refl. destruct (Nat.eqb_spec l l') as [->|Hnl].
+            -- rewrite Nat.eqb_refl. simpl. now replace (Nat.ltb l' _) with true by (symmetry; now apply Nat.ltb_lt).
+            -- replace (Nat.eqb l' l) with false by (symmetry; apply Nat.eqb_neq; auto). now rewrite andb_false_r.
+          * replace (Nat.eqb j' j) with false by (symmetry; apply Nat.eqb_neq; auto). reflexivity. }
+    destruct H1 as (R1 & K1 & V1 & LU1 & SK1 & OK1 & HU1 & HB1).
+    destruct SK1 as [SL1 SN1]. 
+    split; [congruence|]. split; [congruence|]. split; [congruence|]. split; [congruence|].
+    split; [eapply same_skel_trans; eauto; split; auto|].
+    split; [|split].
+    + intros i Hi. rewrite HU by lia. cbn [last_idx]. destruct (last_idx (AParam i) r (S o)); auto.
+      rewrite HU1 by auto. destruct (arg_eqb (AParam i) a); auto.
+    + intros j l Hj Hl. destruct (SN1 j) as (_ & _ & SLo).
+      rewrite HB by lia. cbn [last_idx]. destruct (last_idx (AOut j l) r (S o)); auto.
+      rewrite HB1 by auto. destruct (arg_eqb (AOut j l) a); auto.
+    + intros la [<-|Hin]; [exact OK1|]. specialize (HR la Hin). rewrite LU1 in HR.
+      destruct (snd la) as [i|j l|z]; simpl in *; auto.
+      destruct HR as [A B]. split; [lia|]. destruct (SN1 j) as (E & _). unfold kid in *. rewrite E in B. exact B.
+Qed.
